@@ -45,11 +45,20 @@ fn real_base_ns() -> u64 {
     BASE.load(Ordering::Relaxed)
 }
 
+/// SIMCHECK_NO_CLOCKSEAM=1 switches the seam off (to show that it changes nothing on the unchanged tree).
+fn sim_now() -> Option<u64> {
+    static OFF: std::sync::OnceLock<bool> = std::sync::OnceLock::new();
+    if *OFF.get_or_init(|| std::env::var_os("SIMCHECK_NO_CLOCKSEAM").is_some()) {
+        return None;
+    }
+    attosim::kernel::try_now_ns()
+}
+
 fn virtual_clock(clk: i32) -> Option<u64> {
     if clk != CLOCK_MONOTONIC && clk != CLOCK_REALTIME {
         return None;
     }
-    let now = attosim::kernel::try_now_ns()?;
+    let now = sim_now()?;
     Some(if clk == CLOCK_MONOTONIC { MONO_BASE_NS + now } else { real_base_ns() + now })
 }
 
@@ -67,7 +76,7 @@ pub unsafe extern "C" fn clock_gettime(clk: i32, ts: *mut Timespec) -> i32 {
 
 #[no_mangle]
 pub unsafe extern "C-unwind" fn nanosleep(req: *const Timespec, rem: *mut Timespec) -> i32 {
-    if !req.is_null() && attosim::kernel::try_now_ns().is_some() {
+    if !req.is_null() && sim_now().is_some() {
         let d = ((*req).tv_sec.max(0) as u64).saturating_mul(1_000_000_000).saturating_add((*req).tv_nsec.max(0) as u64);
         attosim::kernel::sleep_ns(d);
         return 0;
